@@ -631,8 +631,16 @@ class HyperscanTokenizer(Tokenizer):
                         # at some point Scratch became necessary --
                         # https://github.com/darvid/python-hyperscan/issues/50#issuecomment-1386243477
                         hyperscan_db.scratch = hyperscan.Scratch(hyperscan_db)
+                        # A cache file whose header survived but whose
+                        # checksum and contents are zeroed (e.g. after a
+                        # crash) loads fine, because the checksum of zeros
+                        # is zero, but can't be scanned. Check that the
+                        # database works, otherwise recompile:
+                        hyperscan_db.scan(b"")
                     except AttributeError:
                         pass
+                    except hyperscan.error:
+                        hyperscan_db = None
 
             if not hyperscan_db:
                 # No cache, so compile database.
